@@ -3,6 +3,8 @@ NEXT Next
 CONSTANTS
   MaxP = 3
   Deviations = {}
+  KindSet <- AllKinds
+  InputKinds <- BothInputs
   MaxPos = 4
 INVARIANT NoBindNoRun
 INVARIANT ArgsExact
